@@ -1198,7 +1198,7 @@ def _register():
         "hasher_push_cv", ["C07", "C06"], replace=["hasher_merge_cv_stack"],
         doc="len' == min(len, popcnt(counter)) + 1 <= 55: the 32 new bytes land inside cv_stack")
     U["blake3_hasher_update_base"] = _u(
-        "blake3_hasher_update_base", ["C07", "C06"], tier="thorough", timeout=1800, solver="cadical",
+        "blake3_hasher_update_base", ["C07", "C06"], timeout=1800, solver="cadical",
         replace=["chunk_state_update", "output_chaining_value", "hasher_push_cv", "round_down_to_power_of_2",
                  "compress_subtree_to_parent_node", "hasher_merge_cv_stack"],
         inlined=["chunk_state_len", "chunk_state_output", "chunk_state_reset", "chunk_state_init", "make_output",
@@ -1270,12 +1270,18 @@ def _register_fn(U):
         "blake3_xof_many",
         "every byte: out[64 b + j] == UFxof(cv, block, block_len, counter + b, flags)[j] for every b < outblocks "
         "(unbounded; loop contract with the witness byte) on the avx512 and the fallback path", props=["C06", "C07"])
+    hm_doc = ("every dispatch branch, every output byte: out[32 i + j] == UFrow(inputs[i][0..64*blocks), key[0..8), counter "
+              "(+ i iff increment_counter), flags, flags_start, flags_end, blocks)[j]: all ten arguments reach the selected "
+              "kernel unchanged and in order")
     U["blake3_hash_many_fn"] = _fn(
-        "blake3_hash_many",
-        "every dispatch branch, every output byte: out[32 i + j] == UFrow(inputs[i][0..64*blocks), key[0..8), counter "
-        "(+ i iff increment_counter), flags, flags_start, flags_end, blocks)[j] for blocks <= 16 (1 and 16 are the "
-        "values blake3.c uses): all ten arguments reach the selected kernel unchanged", props=["C06"],
-        harness="blake3_hash_many_fn",
+        "blake3_hash_many", hm_doc + "; row contents for blocks <= 1 (parent nodes)", harness="blake3_hash_many_fn",
+        defs=["-DVERIF_FN", "-DVERIF_HM_MAXBLOCKS=1"], solver="cadical", level="bounded",
+        bounded=["the UF clause is stated (and the row bytes are tied) for blocks <= 1 only: 64-byte rows, the parent-node "
+                 "use of hash_many; every scalar, the key and the pointer arguments are tied for these calls; "
+                 "num_inputs <= 16 as in the base unit; unit blake3_hash_many_rows_fn covers blocks <= 16"])
+    U["blake3_hash_many_rows_fn"] = _fn(
+        "blake3_hash_many", hm_doc + "; row contents for blocks <= 16 (whole chunks)", harness="blake3_hash_many_fn",
+        solver="cadical", tier="thorough", timeout=900, level="bounded",
         bounded=["blocks <= 16 (rows of at most 1024 bytes = one chunk; blake3.c passes 1 or 16): the UF clause of the "
                  "contract is stated for blocks <= 16 only; num_inputs <= 16 as in the base unit"])
     U["output_chaining_value_fn"] = _fn(
@@ -1287,6 +1293,21 @@ def _register_fn(U):
         "EVERY byte i < out_len (unbounded, every seek): out[i] == UFxof(node fields, flags | ROOT, block counter "
         "(seek+i)/64)[(seek+i)%64]: nothing requested is left unwritten, head / bulk / tail use the right counter "
         "and offset", props=["C06", "C07"])
+    fin_bound = ["cv_stack_len <= 3 (the roll-up loop is unwound, unwinding assertion passes): the closed form of the "
+                 "root node is stated for at most 3 stack entries; seek and out_len are unbounded"]
+    U["blake3_hasher_finalize_seek_fn"] = _fn(
+        "blake3_hasher_finalize_seek",
+        "every byte i < out_len, every seek: out[i] == UFxof(ROOT node, counter (seek+i)/64)[(seek+i)%64] where the root "
+        "node is, for <= 3 stack entries, the closed-form fold of the stack: chunk node alone / parent(S0, CV(chunk)) / "
+        "parent(S0, P(S1, CV(chunk))) / ... with bytes pending, parent(S0, S1) / parent(S0, P(S1, S2)) without: the right "
+        "entries, in the right order, with key, flags | PARENT, counter 0, block_len 64",
+        props=["C06", "C07"], loops=[], pre_unwind=[("blake3.c", "blake3_hasher_finalize_seek", 0, 4)], level="bounded",
+        bounded=fin_bound,
+        defs=["-DVERIF_FN", "-DVERIF_FN_FINALIZE_BOUNDED"])
+    U["blake3_hasher_finalize_fn"] = _fn(
+        "blake3_hasher_finalize",
+        "== finalize_seek(self, 0, out, out_len) also functionally: same root-node clause with seek = 0 (<= 3 stack entries)",
+        props=["C06", "C07"], level="bounded", bounded=fin_bound)
 
 
 _register()
